@@ -94,12 +94,13 @@ type spath struct {
 }
 
 type sstate struct {
-	epoch int // advances at every store and at every call that may change something
-	vars  map[types.Object]sval
-	heap  map[string]sval
-	hkeys map[string]svPath
-	conds []scond
-	effs  []seffect
+	defers [][]sdefer // one list of deferred calls per function body being normalised (innermost last)
+	epoch  int        // advances at every store and at every call that may change something
+	vars   map[types.Object]sval
+	heap   map[string]sval
+	hkeys  map[string]svPath
+	conds  []scond
+	effs   []seffect
 }
 
 func (s *sstate) clone() *sstate {
@@ -115,6 +116,9 @@ func (s *sstate) clone() *sstate {
 	}
 	n.conds = append([]scond{}, s.conds...)
 	n.effs = append([]seffect{}, s.effs...)
+	for _, fr := range s.defers {
+		n.defers = append(n.defers, append([]sdefer{}, fr...))
+	}
 	return n
 }
 
@@ -138,6 +142,12 @@ type effsim struct {
 	// indexSafe: index expressions evaluated so far; true while every evaluation selected an existing element
 	// of a list whose length is known
 	indexSafe map[*ast.IndexExpr]bool
+	// mapStoreSafe: element stores m[k] = v evaluated so far; true while the map stored into was always one made
+	// during the call (make / a literal), directly or as a field of a value built during the call
+	mapStoreSafe map[*ast.IndexExpr]bool
+	// trackReads: selections of fields below an initial value are recorded as "read" effects (lockset)
+	trackReads bool
+	inLen      int // evaluating the argument of len / cap
 }
 
 const effsimMaxPaths = 3000
@@ -148,6 +158,25 @@ func (s *effsim) fail(format string, a ...interface{}) {
 	}
 }
 
+// isMadeSV: the value is a container made during the call (possibly with elements stored into it since).
+func isMadeSV(v sval) bool {
+	switch x := v.(type) {
+	case svFresh, svList:
+		return true
+	case svStruct:
+		if base, ok := x.fields[""]; ok {
+			return isMadeSV(base)
+		}
+	}
+	return false
+}
+
+// simMapStoreSafe: the effect normal form of fd shows that the map stored into by m[k] = v was made during the call.
+func (c *Ctx) simMapStoreSafe(fd *ast.FuncDecl, x *ast.IndexExpr) bool {
+	c.simIndexSafe(fd, nil)
+	return c.simMapStore[fd][x]
+}
+
 // simIndexSafe: the effect normal form of fd shows that the index expression always selects an existing element
 // of a list of known length (a literal, a variadic pack, or what a helper appended to an empty slice).
 func (c *Ctx) simIndexSafe(fd *ast.FuncDecl, x *ast.IndexExpr) bool {
@@ -156,7 +185,7 @@ func (c *Ctx) simIndexSafe(fd *ast.FuncDecl, x *ast.IndexExpr) bool {
 	}
 	m, done := c.simIdx[fd]
 	if !done {
-		s := &effsim{c: c, indexSafe: map[*ast.IndexExpr]bool{}}
+		s := &effsim{c: c, indexSafe: map[*ast.IndexExpr]bool{}, mapStoreSafe: map[*ast.IndexExpr]bool{}}
 		st := &sstate{vars: map[types.Object]sval{}, heap: map[string]sval{}, hkeys: map[string]svPath{}}
 		if r := c.recvObj(fd); r != nil {
 			st.vars[r] = svPath{root: r}
@@ -178,17 +207,29 @@ func (c *Ctx) simIndexSafe(fd *ast.FuncDecl, x *ast.IndexExpr) bool {
 			}
 		})
 		m = map[*ast.IndexExpr]bool{}
+		if c.simMapStore == nil {
+			c.simMapStore = map[*ast.FuncDecl]map[*ast.IndexExpr]bool{}
+		}
+		c.simMapStore[fd] = map[*ast.IndexExpr]bool{}
 		if s.unsupported == "" {
 			m = s.indexSafe
+			c.simMapStore[fd] = s.mapStoreSafe
 		}
 		c.simIdx[fd] = m
+	}
+	if x == nil {
+		return false
 	}
 	return m[x]
 }
 
 // simulate normalises fd; params gives initial values for its receiver and parameters (default: svPath{obj}).
 func (c *Ctx) simulate(fd *ast.FuncDecl, inline func(*types.Func) bool) ([]spath, string) {
-	s := &effsim{c: c, inline: inline}
+	return c.simulateOpt(fd, inline, false)
+}
+
+func (c *Ctx) simulateOpt(fd *ast.FuncDecl, inline func(*types.Func) bool, trackReads bool) ([]spath, string) {
+	s := &effsim{c: c, inline: inline, trackReads: trackReads}
 	st := &sstate{vars: map[types.Object]sval{}, heap: map[string]sval{}, hkeys: map[string]svPath{}}
 	if r := c.recvObj(fd); r != nil {
 		st.vars[r] = svPath{root: r}
@@ -230,11 +271,16 @@ func (s *effsim) callBody(ft *ast.FuncType, body *ast.BlockStmt, st *sstate, k f
 			}
 		}
 	}
-	var defers []sdefer
-	fr := &sframe{defers: &defers}
+	st.defers = append(st.defers, nil)
+	fr := &sframe{}
 	s.execList(body.List, st, fr, func(st *sstate, ctl sctl, rets []sval) {
 		if s.unsupported != "" {
 			return
+		}
+		var defers []sdefer
+		if n := len(st.defers); n > 0 {
+			defers = st.defers[n-1]
+			st.defers = st.defers[:n-1]
 		}
 		finish := func(st *sstate) {
 			if ctl != ctlReturn || (len(rets) == 0 && len(named) > 0) {
@@ -259,8 +305,12 @@ func (s *effsim) callBody(ft *ast.FuncType, body *ast.BlockStmt, st *sstate, k f
 	})
 }
 
-type sframe struct {
-	defers *[]sdefer
+type sframe struct{}
+
+func (st *sstate) addDefer(d sdefer) {
+	if n := len(st.defers); n > 0 {
+		st.defers[n-1] = append(st.defers[n-1], d)
+	}
 }
 
 // sdefer is a deferred call whose function value and arguments were evaluated at the defer statement.
@@ -438,6 +488,24 @@ func (s *effsim) store(st *sstate, p svPath, v sval, pos token.Pos) {
 	st.effs = append(st.effs, seffect{kind: "write", dst: p, val: v, ncond: len(st.conds), pos: pos})
 }
 
+// noteRead records the read of a field below a parameter (or a package variable) when reads are tracked.
+func (s *effsim) noteRead(st *sstate, p svPath, pos token.Pos) {
+	if !s.trackReads || len(p.steps) == 0 {
+		return
+	}
+	p = s.resolve(st, p)
+	if _, local := st.vars[p.root]; local {
+		if q, isPath := st.vars[p.root].(svPath); !isPath || q.root != p.root {
+			return
+		}
+	}
+	kind := "read"
+	if s.inLen > 0 {
+		kind = "read-len"
+	}
+	st.effs = append(st.effs, seffect{kind: kind, dst: p, ncond: len(st.conds), pos: pos})
+}
+
 // ---- statements ----
 
 func (s *effsim) execList(list []ast.Stmt, st *sstate, fr *sframe, k func(*sstate, sctl, []sval)) {
@@ -594,7 +662,7 @@ func (s *effsim) exec(stmt ast.Stmt, st *sstate, fr *sframe, k func(*sstate, sct
 		call := x.Call
 		if lit, ok := unparen(call.Fun).(*ast.FuncLit); ok {
 			s.evalArgs(call, nil, st, func(st *sstate, args []sval) {
-				*fr.defers = append(*fr.defers, func(st *sstate, k func(*sstate)) {
+				st.addDefer(func(st *sstate, k func(*sstate)) {
 					s.inlineLit(lit, args, st, func(st *sstate, _ []sval) { k(st) })
 				})
 				k(st, ctlNext, nil)
@@ -603,7 +671,7 @@ func (s *effsim) exec(stmt ast.Stmt, st *sstate, fr *sframe, k func(*sstate, sct
 		}
 		if id, ok := unparen(call.Fun).(*ast.Ident); ok {
 			if _, isB := c.Info.Uses[id].(*types.Builtin); isB {
-				*fr.defers = append(*fr.defers, func(st *sstate, k func(*sstate)) {
+				st.addDefer(func(st *sstate, k func(*sstate)) {
 					s.evalCall(call, st, func(st *sstate, _ []sval) { k(st) })
 				})
 				k(st, ctlNext, nil)
@@ -617,7 +685,7 @@ func (s *effsim) exec(stmt ast.Stmt, st *sstate, fr *sframe, k func(*sstate, sct
 				sig = m.fn.Type().(*types.Signature)
 			}
 			s.evalArgs(call, sig, st, func(st *sstate, args []sval) {
-				*fr.defers = append(*fr.defers, func(st *sstate, k func(*sstate)) {
+				st.addDefer(func(st *sstate, k func(*sstate)) {
 					switch f := fv.(type) {
 					case svFunc:
 						s.inlineLit(f.lit, args, st, func(st *sstate, _ []sval) { k(st) })
@@ -965,6 +1033,17 @@ func (s *effsim) assign(lhs, rhs []ast.Expr, tok token.Token, st *sstate, pos to
 				}
 				continue
 			}
+			if ix, isIx := l.(*ast.IndexExpr); isIx && s.mapStoreSafe != nil {
+				if _, isMap := c.typeOf(ix.X).Underlying().(*types.Map); isMap {
+					made := false
+					s.evalNow(ix.X, st, func(mv sval) { made = isMadeSV(mv) })
+					if prev, seen := s.mapStoreSafe[ix]; !seen {
+						s.mapStoreSafe[ix] = made
+					} else {
+						s.mapStoreSafe[ix] = prev && made
+					}
+				}
+			}
 			p, ok := s.lvalue(l, st)
 			if !ok {
 				s.fail("assignment target %s", exprString(l))
@@ -1218,8 +1297,10 @@ func (s *effsim) eval(e ast.Expr, st *sstate, k func(*sstate, sval)) {
 				steps := selectionSteps(sel)
 				switch b := base.(type) {
 				case svPath:
+					s.noteRead(st, extend(b, steps...), x.Pos())
 					k(st, s.load(st, extend(b, steps...)))
 				case svAddr:
+					s.noteRead(st, extend(b.p, steps...), x.Pos())
 					k(st, s.load(st, extend(b.p, steps...)))
 				case svStruct, svZero, svCall, svIndex, svElem, svSel:
 					k(st, s.project(st, b, steps))
@@ -1599,7 +1680,9 @@ func (s *effsim) inlineLit(lit *ast.FuncLit, args []sval, st *sstate, k func(*ss
 func (s *effsim) evalBuiltin(name string, call *ast.CallExpr, st *sstate, k func(*sstate, []sval)) {
 	switch name {
 	case "len", "cap":
+		s.inLen++
 		s.eval(call.Args[0], st, func(st *sstate, v sval) {
+			s.inLen--
 			if l, ok := v.(svList); ok {
 				k(st, []sval{svConst{constant.MakeInt64(int64(len(l.elems)))}})
 				return
